@@ -12,6 +12,8 @@ use serde_json::{json, Value};
 
 pub const USERS: [&str; 3] = ["a1", "a2", "a3"];
 pub const ALL: [&str; 4] = ["a1", "a2", "a3", "k1"];
+/// every account that is observed: the callers plus the token contract's own address (a recipient like any other)
+pub const ALL5: [&str; 5] = ["a1", "a2", "a3", "k1", "tok"];
 
 pub fn token_code() -> Box<dyn Contract<Empty>> {
     Recorded::new("cw20", crate::contract_code!(cw20_base, has_reply_cw20_base, has_sudo_cw20_base, has_migrate_cw20_base))
@@ -94,13 +96,13 @@ impl Run {
             r.accounts.into_iter().map(|a| (a.clone(), json!(w.name_of(&a)))).collect()
         });
         let mut bal = serde_json::Map::new();
-        for a in ALL {
+        for a in ALL5 {
             let r: BalanceResponse = w.smart(&t, &QueryMsg::Balance { address: w.addr(a).to_string() }).unwrap();
             bal.insert(a.to_string(), json!(self.amt_of(r.balance, "balance")));
         }
         let mut allow = vec![];
-        for o in ALL {
-            for s in ALL {
+        for o in ALL5 {
+            for s in ALL5 {
                 let r: AllowanceResponse = w
                     .smart(&t, &QueryMsg::Allowance { owner: w.addr(o).to_string(), spender: w.addr(s).to_string() })
                     .unwrap();
@@ -110,7 +112,7 @@ impl Run {
             }
         }
         let mut by_owner = vec![];
-        for o in ALL {
+        for o in ALL5 {
             let items = self.paged(|c| {
                 let r: AllAllowancesResponse = w
                     .smart(&t, &QueryMsg::AllAllowances { owner: w.addr(o).to_string(), start_after: c, limit: Some(30) })
@@ -123,7 +125,7 @@ impl Run {
             by_owner.extend(items);
         }
         let mut by_spender = vec![];
-        for s in ALL {
+        for s in ALL5 {
             let items = self.paged(|c| {
                 let r: AllSpenderAllowancesResponse = w
                     .smart(&t, &QueryMsg::AllSpenderAllowances { spender: w.addr(s).to_string(), start_after: c, limit: Some(30) })
@@ -149,7 +151,7 @@ impl Run {
     }
 
     fn zero_obs(&self) -> Value {
-        json!({"supply":0,"accounts":[],"bal":{"a1":0,"a2":0,"a3":0,"k1":0},"minter":{"addr":"none","cap":-1},
+        json!({"supply":0,"accounts":[],"bal":{"a1":0,"a2":0,"a3":0,"k1":0,"tok":0},"minter":{"addr":"none","cap":-1},
                "allow":[],"byOwner":[],"bySpender":[],"migrated":true,
                "mk":{"project":"none","description":"none","marketing":"none","logo":"none","mime":"none"}})
     }
@@ -167,8 +169,7 @@ impl Run {
         } else {
             cfg0
         };
-        let log2 = cfg.get("scale").and_then(|x| x.as_u64()).unwrap_or(0);
-        let sc = Scale::new(1u128 << log2);
+        let sc = Scale::of_cfg(cfg);
         let mut w = World::new();
         for u in USERS {
             w.user(u);
@@ -437,7 +438,9 @@ impl Run {
 // ------------------------------------------------------------------------------ random driver
 fn rand_cfg(rng: &mut Rng) -> Value {
     let scale = *rng.pick(&[0u64, 0, 33, 64, 100, 100]);
-    let sc = Scale::new(1u128 << scale);
+    // one run in eight: amounts in units of (2^128-1)/255, so that u128::MAX itself is an amount (255 units)
+    let scale_div = if rng.chance(1, 8) { 255u64 } else { 0 };
+    let sc = Scale::of_cfg(&json!({"scale": scale, "scaleDiv": scale_div}));
     let big = sc.max_amt() > 0 && rng.chance(1, 2);
     let top: u64 = if big { sc.max_amt() as u64 } else { 60 };
     let mut init = vec![];
@@ -477,7 +480,7 @@ fn rand_cfg(rng: &mut Rng) -> Value {
         }
     }
     let marketing = if rng.chance(1, 2) { json!({"addr": rng.pick(&["a1", "a2", "none"]), "logo": rng.pick(&["none", "url", "png", "svg"])}) } else { Value::Null };
-    json!({"scale":scale,"init":init,"minter":minter,"cap":cap,"legacy":legacy,"legacyVersion":legacy_version,"legacyGrants":grants,"marketing":marketing})
+    json!({"scale":scale,"scaleDiv":scale_div,"init":init,"minter":minter,"cap":cap,"legacy":legacy,"legacyVersion":legacy_version,"legacyGrants":grants,"marketing":marketing})
 }
 
 fn rand_exp(rng: &mut Rng, h: u64, t: u64, concrete: bool) -> Value {
@@ -564,13 +567,13 @@ fn drive(run: &mut Run, rng: &mut Rng, len: usize, out: &mut Out) {
         let cap = obs["minter"]["cap"].as_i64().unwrap_or(-1);
         let maxa = run.sc.max_amt();
         let st = match rng.below(100) {
-            0..=13 => json!({"act":"transfer","by":by,"args":{"to":rng.pick(&ALL),"amt":around(rng, balof(&obs,&by), top)}}),
+            0..=13 => json!({"act":"transfer","by":by,"args":{"to":rng.pick(&ALL5),"amt":around(rng, balof(&obs,&by), top)}}),
             14..=20 => json!({"act":"send","by":by,"args":{"to":"k1","amt":around(rng, balof(&obs,&by), top),"payload":format!("p{}", rng.below(4))}}),
             21..=26 => json!({"act":"burn","by":by,"args":{"amt":around(rng, balof(&obs,&by), top)}}),
             27..=38 => {
                 let who = if rng.chance(3, 4) && obs["minter"]["addr"] != "none" { obs["minter"]["addr"].as_str().unwrap().to_string() } else { by.clone() };
                 let target = if cap >= 0 && rng.chance(2, 3) { cap - supply } else if maxa > 0 && rng.chance(1, 2) { maxa - supply } else { rng.range(0, 12) as i64 };
-                json!({"act":"mint","by":who,"args":{"to":rng.pick(&ALL),"amt":around(rng, target, top)}})
+                json!({"act":"mint","by":who,"args":{"to":rng.pick(&ALL5),"amt":around(rng, target, top)}})
             }
             39..=52 => {
                 let sp = rng.pick(&ALL).to_string();
@@ -590,7 +593,7 @@ fn drive(run: &mut Run, rng: &mut Rng, len: usize, out: &mut Out) {
                 let tgt = if rng.chance(1, 2) { lim } else { allow_of(&obs, &o, &sp) };
                 let a = around(rng, tgt, top);
                 match rng.below(3) {
-                    0 => json!({"act":"transfer_from","by":sp,"args":{"owner":o,"to":rng.pick(&ALL),"amt":a}}),
+                    0 => json!({"act":"transfer_from","by":sp,"args":{"owner":o,"to":rng.pick(&ALL5),"amt":a}}),
                     1 => json!({"act":"send_from","by":sp,"args":{"owner":o,"to":"k1","amt":a,"payload":format!("q{}", rng.below(4))}}),
                     _ => json!({"act":"burn_from","by":sp,"args":{"owner":o,"amt":a}}),
                 }
